@@ -138,6 +138,9 @@ func (v *globValidator) validateNext() bool {
 				v.unexpected(c, "end of character match []", "missing ]")
 				return false
 			default:
+				if c == '\n' || c == '\r' {
+					v.unexpected(c, "character match []", "newline cannot be contained")
+				}
 				if v.scan.Peek() != '-' {
 					// in case of single character
 					chars++
@@ -158,6 +161,9 @@ func (v *globValidator) validateNext() bool {
 					// do nothing
 				default:
 					c = v.scan.Next() // eat end of range
+					if c == '\n' || c == '\r' {
+						v.unexpected(c, "character range in []", "newline cannot be contained")
+					}
 					if s > c {
 						why := fmt.Sprintf("start of range %q (%d) is larger than end of range %q (%d)", s, s, c, c)
 						v.unexpected(c, "character range in []", why)
